@@ -15,7 +15,7 @@ def rule_s(ck, F):
     ck.rule('S', 'read_sample(p, spr, rows, (x, y)) = p[clamp(y, 0, rows-1) * spr + clamp(x, 0, spr-1)] (nearest edge sample outside the picture)')
     b = F.body(G + 'read_sample'); T = Table(F, G + 'read_sample', paths=False, cast_kinds=True); N = Norm(T)
     got = [N.n(d[2]) for d in T.local_defs(0)]
-    def cl(v, n): return ('f', 'clamp', v, ('c', 0), ('f', 'satsub', n, ('c', 1)))
+    def cl(v, n): return ('f', 'as_usize', ('f', 'clamp', v, ('c', 0), ('f', 'satsub', n, ('c', 1))))
     X = ('fld', ('v', 'pos'), (0,)); Y = ('fld', ('v', 'pos'), (1,))
     idx = mk_add([mk_mul([cl(Y, ('v', 'num_rows')), ('v', 'samples_per_row')]), cl(X, ('v', 'samples_per_row'))])
     ok = len(got) == 1 and find(got[0], lambda z: z == ('f', 'get', ('v', 'pixel_array'), idx)) and show(got[0]).startswith('expect(copied(get(')
@@ -111,7 +111,7 @@ def rule_b(ck, F):
         i, j = li[0], lj[0]
         forms = {
             'integer vector': (S(0, 0, i, j), dnf_and(dnf_not(xi), dnf_not(yi))),
-            'both half': (N.op('Div', mk_add([S(0, 0, i, j), S(1, 0, i, j), S(0, 1, i, j), S(1, 1, i, j), ('c', 2)]), ('c', 4)), dnf_and(xi, yi)),
+            'both half': (('f', 'as_u8', N.op('Div', mk_add([S(0, 0, i, j), S(1, 0, i, j), S(0, 1, i, j), S(1, 1, i, j), ('c', 2)]), ('c', 4))), dnf_and(xi, yi)),
             'one half': (('f', 'lerp', ('f', 'lerp', S(0, 0, i, j), S(1, 0, i, j), XI), ('f', 'lerp', S(0, 1, i, j), S(1, 1, i, j), XI), YI), dnf_or(dnf_and(xi, dnf_not(yi)), dnf_and(dnf_not(xi), yi))),
         }
         hit = [k for k, (f, c) in forms.items() if f == v]
@@ -142,7 +142,7 @@ def rule_b(ck, F):
     okf = False
     if len(js) == 1 and show(N.loops[js[0][1]].lo) == '0' and show(N.loops[js[0][1]].hi) == '8':
         j = js[0]
-        t0 = mk_add([mk_mul([mk_add([PY, j]), SPR]), PX]); s0 = mk_add([mk_mul([mk_add([PY, DY, j]), SPR]), PX, DX])
+        t0 = mk_add([mk_mul([mk_add([PY, j]), SPR]), PX]); s0 = mk_add([mk_mul([('f', 'as_usize', mk_add([PY, DY, j])), SPR]), ('f', 'as_usize', mk_add([PX, DX]))])
         def rg(a): return ('agg', 'Range', a, mk_add([a, ('c', 8)]))
         okf = dst == ('slice', ('v', 'target'), rg(t0)) and src == ('slice', ('v', 'pixel_array'), rg(s0))
     gs = set()
